@@ -365,6 +365,8 @@ func (fsdb *FsDb) importPem(content []byte) db.BuildArtifact {
 		logging.Infof("certificate import failed: no certificate found")
 	}
 
+	out.UnusableKey = pemFile.UnusableKey
+
 	if pemFile.PrivateKey != nil {
 		out.PrivateKey = pemFile.PrivateKey
 	} else {
